@@ -49,7 +49,9 @@ def gen_case(rng: random.Random):
     if rng.random() < 0.04:
         args.insert(rng.randint(0, len(args)), "@missing")
     today = rng.choice(DAYS) if rng.random() < 0.7 else (rng.randint(2001, 2098), rng.randint(1, 12), rng.randint(1, 28))
-    return {"today": list(today), "map": gmap, "args": args}
+    # local clocks whose UTC date is the previous / the next day, besides plain noon
+    clock = rng.choice([(12, 0), (12, 0), (1, 5), (22, -8), (0, 14), (23, -12)])
+    return {"today": list(today), "map": gmap, "args": args, "clock": list(clock)}
 
 
 def depth(gmap, g, seen=()):
@@ -58,11 +60,51 @@ def depth(gmap, g, seen=()):
     return 1 + max([depth(gmap, m[1:]) for m in gmap[g] if m.startswith("@")] or [0])
 
 
+import contextlib
+
+
+@contextlib.contextmanager
+def local_clock(local_now, off):
+    """A frozen clock with a real time zone: naive now()/today() are local (UTC+off), now(tz)/utcnow() are
+    the same instant in that zone (freezegun's now(tz) adds the offset twice, so it cannot tell them apart)."""
+    import datetime as real
+    RealDT, RealDate = real.datetime, real.date
+    utc_now = local_now - real.timedelta(hours=off)
+
+    class FakeDT(RealDT):
+        @classmethod
+        def now(cls, tz=None):
+            if tz is None:
+                return cls(*local_now.timetuple()[:6])
+            return tz.fromutc(cls(*utc_now.timetuple()[:6], tzinfo=tz))
+
+        @classmethod
+        def utcnow(cls):
+            return cls(*utc_now.timetuple()[:6])
+
+        @classmethod
+        def today(cls):
+            return cls.now()
+
+    class FakeDate(RealDate):
+        @classmethod
+        def today(cls):
+            return cls(local_now.year, local_now.month, local_now.day)
+
+    real.datetime, real.date = FakeDT, FakeDate
+    try:
+        yield
+    finally:
+        real.datetime, real.date = RealDT, RealDate
+
+
 def run_impl(case):
     from freezegun import freeze_time
     from zorg.service.file_groups import expand_file_group_paths
     y, m, d = case["today"]
-    with freeze_time(dt.datetime(y, m, d, 12, 0, 0)):
+    # the local clock: (hour, UTC offset); the local date is case["today"] even when the UTC date differs
+    hour, off = case.get("clock", (12, 0))
+    with (freeze_time(dt.datetime(y, m, d, hour, 0, 0)) if off == 0 else local_clock(dt.datetime(y, m, d, hour, 0, 0), off)):
         try:
             r = expand_file_group_paths(list(case["args"]), file_group_map=case["map"])
             return ["ok", [str(p) for p in r]]
